@@ -14,7 +14,7 @@ SIM = os.path.join(VERIF, "sim")
 TARGET = os.path.join(VERIF, "target")
 REPO = os.environ.get("VERIF_REPO", "/repo")
 VARIANTS = {"A": "var_a", "B": "var_b", "C": "var_c"}
-RUN_TIMEOUT = 60
+RUN_TIMEOUT = 240
 
 
 def env():
@@ -36,10 +36,21 @@ def build(variant, quiet=True):
     """(Re)build one variant from /repo's current working tree. cargo decides what is stale."""
     cmd = ["cargo", "build", "--offline", "--features", VARIANTS[variant],
            "--target-dir", target_dir(variant)]
+    cwd = SIM
     if REPO != "/repo":
-        cmd += ["--config", 'patch."/repo".mmtk.path="%s"' % REPO]
+        # (used for sensitivity experiments on scratch copies of mmtk-core) build from a shadow
+        # crate directory whose manifest points at the other source tree
+        cwd = os.path.join(target_dir(variant), "shadow")
+        os.makedirs(os.path.join(cwd, ".cargo"), exist_ok=True)
+        with open(os.path.join(cwd, "Cargo.toml"), "w") as f:
+            f.write(open(os.path.join(SIM, "Cargo.toml")).read().replace('path = "/repo"', 'path = "%s"' % REPO))
+        for name in ("Cargo.lock", os.path.join(".cargo", "config.toml")):
+            with open(os.path.join(cwd, name), "w") as f:
+                f.write(open(os.path.join(SIM, name)).read())
+        if not os.path.islink(os.path.join(cwd, "src")):
+            os.symlink(os.path.join(SIM, "src"), os.path.join(cwd, "src"))
     t0 = time.time()
-    p = subprocess.run(cmd, cwd=SIM, env=env(), stdout=subprocess.PIPE, stderr=subprocess.STDOUT, text=True)
+    p = subprocess.run(cmd, cwd=cwd, env=env(), stdout=subprocess.PIPE, stderr=subprocess.STDOUT, text=True)
     if p.returncode != 0:
         sys.stderr.write(p.stdout[-6000:])
         raise SystemExit(2)
